@@ -654,7 +654,10 @@ class ScrollBar(WidgetDecoration[WrappedWidget]):
         ow = self._original_widget
         ow_size = self._original_widget_size
         handled: bool | None = False
-        if hasattr(ow, "mouse_event"):
+        if self._scrollbar_side == SCROLLBAR_LEFT:
+            # the wrapped widget is drawn to the right of the bar
+            col -= size[0] - ow_size[0]
+        if hasattr(ow, "mouse_event") and 0 <= col < ow_size[0]:
             handled = ow.mouse_event(ow_size, event, button, col, row, focus)
 
         if not handled and hasattr(ow, "set_scrollpos"):
